@@ -5,6 +5,8 @@ C12 - hidden objects leave no trace; private objects are always marked private.
   R12.2 listing producers: every enumeration of model objects in the writers filters on visibility
   R12.3 visibility inherits from containers
   R12.4 private marker present at every listing-entry constructor
+  R12.5 generated mentions: the class index files a class under the written name of a base only when that base is not a documented object;
+        the "overrides" note is only produced for a visible member
 Does not decide: textual mentions of a hidden name, CSS/JS behaviour of the toggle.
 """
 from __future__ import annotations
@@ -373,6 +375,12 @@ def run(repo: Repo, chk: Check, thorough: bool = False) -> None:
             continue
         entries = [c for c in calls_in(f) if isinstance(c.func, ast.Attribute) and norm(c.func.value) == 'tags' and c.func.attr in ('li', 'tr', 'td', 'div', 'span') and
                    any(isinstance(x, ast.Call) and call_name(x) == 'taglink' for x in ast.walk(c))]
+        # ... or fills one clone of a template element per object (`tag.clone().fillSlots(root=<link to o>)` in a loop over model objects)
+        clones = {t.id for a in f.walk() if isinstance(a, ast.Assign) and isinstance(a.value, ast.Call) and call_name(a.value) == 'clone' for t in a.targets if isinstance(t, ast.Name)}
+        entries += [c for c in calls_in(f) if call_name(c) == 'fillSlots' and (any(isinstance(x, ast.Call) and call_name(x) == 'clone' for x in ast.walk(c.func)) or
+                                                                            any(isinstance(x, ast.Name) and x.id in clones for x in ast.walk(c.func))) and
+                    any(isinstance(x, ast.Call) and call_name(x) == 'taglink' for k in c.keywords for x in ast.walk(k.value)) and
+                    any(isinstance(p_, (ast.For, ast.comprehension)) for p_ in parents(c))]
         if not entries:
             continue
         sites = _private_marker_sites(f)
@@ -428,6 +436,50 @@ def run(repo: Repo, chk: Check, thorough: bool = False) -> None:
                    f'`{norm(kills[0])[:50]}` (line {kills[0].lineno}) overwrites `{vname}` after the private marker was added: the entry loses the marker',
                    repo.loc(f.mod, marker_stmt))
     chk.require('R12.4', 8)
+
+    # ------------------------------------------------------------------ R12.5
+    # classIndex.html: findRootClasses groups the classes whose base is not part of the documentation under the NAME of that base (external
+    # library classes).  A hidden base is a documented object that must leave no row: a class may only be filed under `roots[<written name>]`
+    # when the base object is None - `base is None or not base.isVisible` puts the qualified name of the hidden class on the page as a heading
+    frc = repo.func('pydoctor.templatewriter.summary.findRootClasses')
+    cff = CFG(frc)
+    zl = [n for n in frc.walk() if isinstance(n, ast.For) and isinstance(n.iter, ast.Call) and call_name(n.iter) == 'zip' and isinstance(n.target, ast.Tuple) and
+          len(n.target.elts) == 2 and all(isinstance(e, ast.Name) for e in n.target.elts) and any('bases' in norm(a) for a in n.iter.args)]
+    if not zl:
+        raise AnalysisError('R12.5: the loop over zip(cls.bases, cls.baseobjects) was not found in findRootClasses')
+    nm_v, ob_v = zl[0].target.elts[0].id, zl[0].target.elts[1].id      # type: ignore[attr-defined]
+    keyed = [n for n in zl[0].body for n in ast.walk(n) if (isinstance(n, ast.Subscript) and isinstance(n.ctx, ast.Store) and isinstance(n.slice, ast.Name) and n.slice.id == nm_v) or
+             (isinstance(n, ast.Call) and call_name(n) == 'setdefault' and n.args and isinstance(n.args[0], ast.Name) and n.args[0].id == nm_v)]
+    if not keyed:
+        raise AnalysisError('R12.5: findRootClasses no longer files classes under the written name of a base')
+    for k in keyed:
+        facts = cff.dominating_tests(cff.stmt_of(k))
+        only_ext = any(pol and isinstance(t, ast.Compare) and len(t.ops) == 1 and isinstance(t.ops[0], ast.Is) and norm(t.left) == ob_v and norm(t.comparators[0]) == 'None'
+                       for t, pol in facts)
+        chk.ob('R12.5', 'templatewriter.summary.findRootClasses :: a class is filed under the name of a base only when the base is not documented', only_ext,
+               f'under `{ob_v} is None`' if only_ext else
+               f'`{norm(k)[:50]}` is also reached for a base that is a hidden object: classIndex.html gets a top-level row `<li><code>pkg.hid.HBase</code>` naming the '
+               'hidden class and listing who derives from it', repo.loc(frc.mod, k))
+    # the "overrides X" note on a member: X is named by its qualified name (taglink keeps the label when it drops the link), so the note may only
+    # be produced for a visible X - its sibling "overridden in ..." goes through assembleList, which filters
+    goi = repo.func('pydoctor.templatewriter.pages.get_override_info')
+    cfo = CFG(goi)
+    notes = [c for c in calls_in(goi) if call_name(c) == 'taglink' and any(isinstance(x, ast.Constant) and isinstance(x.value, str) and 'overrides' in x.value
+                                                                            for p_ in parents(c) if isinstance(p_, ast.Call) for x in ast.walk(p_))]
+    if not notes:
+        raise AnalysisError('R12.5: the "overrides" note of get_override_info was not found')
+    for c in notes:
+        subj = norm(c.args[0])
+        vis = any(((pol and isinstance(t, ast.Attribute) and t.attr == 'isVisible') or
+                   (not pol and isinstance(t, ast.UnaryOp) and isinstance(t.op, ast.Not) and isinstance(t.operand, ast.Attribute) and t.operand.attr == 'isVisible'))
+                  for t, pol in cfo.dominating_tests(cfo.stmt_of(c))) or \
+            any(isinstance(x, ast.Attribute) and x.attr == 'isVisible' for n_ in goi.walk() if isinstance(n_, ast.If) for x in ast.walk(n_.test)
+                if any(isinstance(y, (ast.Continue, ast.Break, ast.Return)) for y in n_.body) and cfo.before(n_, c))
+        chk.ob('R12.5', 'templatewriter.pages.get_override_info :: the "overrides" note names a visible member only', vis,
+               f'`{subj}` is tested for visibility first' if vis else
+               f'the note is produced whatever the privacy of `{subj}`: the page of the subclass prints `overrides <code>pkg.pub.Base.secret</code>` for a hidden method',
+               repo.loc(goi.mod, c))
+    chk.require('R12.5', 2)
 
 
 # ----------------------------------------------------------------------------------------------------------
@@ -512,6 +564,10 @@ def _use_ok(repo: Repo, f: Func, ug: UseGuard, u: ast.Name, var: str, guarding: 
     # membership / lookup in the contents of the object: neutral (derivations are tracked separately)
     if isinstance(par, ast.Attribute) and par.attr == 'contents':
         return 'member lookup'
+    # `x is None` / `x is not None`: reads no object (a correction: the test was only accepted as part of `x is None or not x.isVisible`)
+    if isinstance(par, ast.Compare) and len(par.ops) == 1 and isinstance(par.ops[0], (ast.Is, ast.IsNot)) and \
+            ((par.left is u and norm(par.comparators[0]) == 'None') or (par.comparators[0] is u and norm(par.left) == 'None')):
+        return 'None test'
     if ug.in_test(u, var):
         return 'visibility test'
     if ug.guarded(u, var):
